@@ -21,7 +21,7 @@ func init() { Register(c14Checker{}) }
 func (c14Checker) ID() string { return "C14" }
 func (c14Checker) ProbeNames() []string {
 	return []string{"exec_fault_inside_include", "writer_fault_fired", "exec_fault_fired", "unbuffered_partial_output",
-		"context_rejected", "genuine_exec_error", "pair_fault", "lazy_include_executed", "stdlib_writer_run", "same_template_after_failure", "exec_panic_fired"}
+		"context_rejected", "genuine_exec_error", "pair_fault", "lazy_include_executed", "stdlib_writer_run", "same_template_after_failure", "exec_panic_fired", "same_context_object"}
 }
 func (c14Checker) Meta() CheckerMeta {
 	return CheckerMeta{
@@ -403,6 +403,9 @@ func (c14Checker) Run(tp *Tapes, opt RunOpt) *Outcome {
 		if terr == nil {
 			sp.ApplyTplOptions(tpl)
 			opn := 0
+			// "the same template and context": one Context value, the very same Go objects, is
+			// handed to every one of these calls - the engine may read it, nothing else
+			sharedCtx := w.BuildCtx(cd)
 			on := func(ep int, plan []FaultSpec) *ExecResult {
 				for i := range plan {
 					plan[i].Op = opn
@@ -410,11 +413,28 @@ func (c14Checker) Run(tp *Tapes, opt RunOpt) *Outcome {
 				w.Plan = plan
 				w.active = map[int]int{}
 				w.OpBegin(opn)
-				r := w.Exec(tpl, ep, w.BuildCtx(cd), sp.Blocks)
+				r := w.Exec(tpl, ep, sharedCtx, sp.Blocks)
 				w.OpEnd(opn)
 				opn++
 				out.Execs++
 				return r
+			}
+			{
+				// first of all the four entry points in turn, fault-free, on that one Context value
+				lastCase = &c14Case{Entry: "same template and the same Context value: all four entry points in turn"}
+				var rs []*ExecResult
+				for _, ep := range eps {
+					rs = append(rs, on(ep, nil))
+				}
+				out.probe("same_context_object")
+				if agree(rs, "same template and Context value") && !cd.MaybeFail {
+					for _, r := range rs {
+						if !r.Failed() && visible(r) != refOut {
+							viol("variants_disagree", "same template and Context value bytes", "handing the same Context value to the entry points one after the other changes what is rendered", refOut, obs(rs))
+							break
+						}
+					}
+				}
 			}
 			for n := 0; n < 2 && len(out.Violations) == 0; n++ {
 				k := tp.Fault.Draw(K)
